@@ -15,7 +15,7 @@ from ..result import finish
 
 ID = "C04"
 ENGINE = "rx"
-RUNS = {"quick": 3000, "thorough": 80000}
+RUNS = {"quick": 1600, "thorough": 60000}
 RULE_TEXT = ("one run = a scripted stream of 20-120 link-layer frames fed to the REAL receive loop (RawLinkLayer.receive on a fake socket, or "
              "PythonCV2XLinkLayer.callback_handler_loop on a fake queue) of a station wired like examples/all_sender_and_receiver.py "
              "(GN+BTP, CA/DEN/VRU reception with or without LDM, security off or on): genuine CAM/VAM/DENM traffic of peer stacks and "
@@ -402,7 +402,7 @@ def execute(plan: dict) -> dict:
                 trace.append((cls,))
                 calls0 = len(dut.router_calls)
                 esc0 = len(dut.escaped)
-                before = snapshot(dut) if cls != "ok" else None
+                before = None
                 dut.feed(eth)
                 if cls == "ok":
                     twin.feed(eth)
@@ -440,9 +440,10 @@ def execute(plan: dict) -> dict:
                     if len(dut.router_calls) != calls0:
                         sim.violate(ID, "own-or-foreign-mac-delivered", cls, f"frame #{idx} ({cls}) was handed to the GN router")
                 if cls != "ok" and not (cls.startswith("mac:") and judged_cv2x):
-                    after = snapshot(dut)
-                    d = diff(before, after)
+                    # the twin did not get this frame; both have the same timers, so anything the bad frame left behind is a difference
+                    d = diff(snapshot(twin), snapshot(dut))
                     if d:
+                        state["dead"] = True
                         sim.violate(ID, "state-changed-by-bad-frame", f"{cls}/{d[0]}", f"bad frame #{idx} ({cls}) changed the station: {d[0]}: {d[1]}")
                 if cls == "ok":
                     a, b = snapshot(dut), snapshot(twin)
